@@ -100,7 +100,8 @@ def defer_measurements(
     measurement_qubits: dict[cirq.MeasurementKey, list[tuple[cirq.Qid, ...]]] = defaultdict(list)
 
     def defer(op: cirq.Operation, _) -> cirq.OP_TREE:
-        if op in terminal_measurements:
+        # Only measurements can be terminal measurements; other operations need not be hashable.
+        if protocols.is_measurement(op) and op in terminal_measurements:
             return op
         gate = op.gate
         if isinstance(gate, ops.MeasurementGate):
